@@ -346,6 +346,17 @@ def r2_walk(program, folder, rep):
                     (plain(mk_cmp("In", ("tuple", ax, ay, LINK), M_)),
                      True) in cs and len(cs) == 3 and \
                     show(plain(LINK)).count("Links") >= 1
+    if not ok:
+        # read only in the form: one comprehension over Links with the three
+        # tests as separate conditions
+        built_ = L.filtered(rets[0]) if len(rets) == 1 else None
+        plain_form = bool(built_) and len(built_) == 1 and \
+            len(built_[0][2]) == 3
+        if not plain_form:
+            raise AnalysisError("links_between: the links are not selected "
+                                "by one comprehension with the position "
+                                "tests and the liveness test as separate "
+                                "conditions; that form is not analysed")
     rep.check(ok, "C11-R2", qual(lb), "links_between(a, b): links l of a "
               "with a + vec(l) == b (mod size) that are working at a",
               construct="links_between", node=lb)
